@@ -34,6 +34,21 @@ def _ptr(v):
     raise EngineError('shared-memory access through %r (not a pointer into the mapped segment)' % (v,))
 
 
+def _all_zero_value(v):
+    """a typed value all of whose scalar fields are the constant 0 (enums: discriminant 0 without payload fields)"""
+    from .values import Struct as _S, Enum as _E
+    if isinstance(v, z3.ExprRef):
+        x = z3.simplify(v)
+        return z3.is_int_value(x) and x.as_long() == 0 or z3.is_false(x)
+    if isinstance(v, _S):
+        return all(_all_zero_value(x) for x in v.f)
+    if isinstance(v, _E):
+        d = v.disc() if not isinstance(v.d, int) else z3.IntVal(v.d)
+        d = z3.simplify(d)
+        return z3.is_int_value(d) and d.as_long() == 0 and all(_all_zero_value(p) for k, p in v.p.items() if p is not None and not (isinstance(p, _S) and not p.f))
+    return False
+
+
 class SharedEnv:
     """environment handlers that turn shared-memory accesses into trace events"""
 
@@ -157,6 +172,10 @@ class SharedEnv:
 
     def write(self, ex, st, p, size, val, flavour):
         if size > WORD:
+            if not isinstance(val, Rec) and _all_zero_value(val):
+                # the all-zero record (ClockErrorBound::default()): the same record a wiped segment / a new reader's cache holds
+                val = Rec([z3.IntVal(getattr(self, 'default_tag', -1))] * (size // WORD))
+                self.default_record_writes = getattr(self, 'default_record_writes', 0) + 1
             if not isinstance(val, Rec) or len(val.f) * WORD != size:
                 raise EngineError('multi-word store of a value that is not the opaque record: %r' % (val,))
             st.trace = st.trace + (Event('write', (p.region, p.off, size, flavour), None, {'val': val}),)
